@@ -14,6 +14,7 @@ import (
 	"regexp"
 	"strconv"
 	"strings"
+	"unicode/utf8"
 
 	"github.com/wolimst/lib-secs2-hsms-go/pkg/ast"
 	"github.com/wolimst/lib-secs2-hsms-go/pkg/parser/sml"
@@ -1280,7 +1281,64 @@ func tokenAt(toks []sml.VerifToken, line, col int) int {
 	return -1
 }
 
+// the byte offset of (line, col) in text, columns counted in characters; -1 if outside
+func posOffset(text string, line, col int) int {
+	off := 0
+	for l := 1; l < line; l++ {
+		i := strings.IndexByte(text[off:], '\n')
+		if i < 0 {
+			return -1
+		}
+		off += i + 1
+	}
+	for c := 1; c < col; c++ {
+		if off >= len(text) || text[off] == '\n' {
+			return -1
+		}
+		_, w := utf8.DecodeRuneInString(text[off:])
+		off += w
+	}
+	return off
+}
+
+// every token's reported line and column is where its text starts, found from the text alone
+func positionsWrong(text string, toks []sml.VerifToken) string {
+	for i, t := range toks {
+		if t.Type == 0 || t.Type == 1 {
+			continue
+		}
+		off := posOffset(text, t.Line, t.Col)
+		if off < 0 || off > len(text) {
+			return fmt.Sprintf("token %d %q reported at %d:%d, which is outside the text", i, t.Val, t.Line, t.Col)
+		}
+		rest := text[off:]
+		ok := false
+		switch t.Type {
+		case 11:
+			ok = strings.HasPrefix(rest, "[")
+		case 4, 5, 6, 10, 13:
+			ok = len(rest) >= len(t.Val) && strings.EqualFold(rest[:len(t.Val)], t.Val)
+		default:
+			ok = strings.HasPrefix(rest, t.Val)
+		}
+		if !ok {
+			return fmt.Sprintf("token %d %q reported at %d:%d, where the text reads %q", i, t.Val, t.Line, t.Col, short(rest))
+		}
+	}
+	return ""
+}
+
 func monitorC08(c *Ctx, id string, cs Case, e *Exec, final []string) {
+	for _, k := range []int{3, 4} {
+		if k < len(e.Pool) {
+			if lr, ok := e.Pool[k].(lexRes); ok {
+				if bad := positionsWrong(lr.input, lr.toks); bad != "" {
+					c.hit(id, cs, "token-position", bad)
+					return
+				}
+			}
+		}
+	}
 	ra, ok1 := e.Pool[0].(smlRes)
 	rb, ok2 := e.Pool[1].(smlRes)
 	rc, ok3 := e.Pool[2].(smlRes)
@@ -1379,12 +1437,16 @@ func suiteC19(c *Ctx) {
 func monitorC19(c *Ctx, id string, cs Case, e *Exec, final []string) {
 	n := len(cs.Steps) - 1
 	var parts []*ast.DataMessage
+	var partWarns []string
 	for i := 0; i < n; i++ {
 		r, ok := e.Pool[i].(smlRes)
 		if !ok || len(r.errs) != 0 {
 			return
 		}
 		parts = append(parts, r.msgs...)
+		if k := kindsOf(r.warns); k != "" {
+			partWarns = append(partWarns, k)
+		}
 	}
 	c.stats["monitor:concatenations"]++
 	w, ok := e.Pool[n].(smlRes)
@@ -1404,6 +1466,10 @@ func monitorC19(c *Ctx, id string, cs Case, e *Exec, final []string) {
 		if parts[i].Header() != w.msgs[i].Header() {
 			c.hit(id, cs, "concatenation-header-differs", fmt.Sprintf("%q vs %q", parts[i].Header(), w.msgs[i].Header()))
 		}
+	}
+	// the warnings of the concatenation are those of the texts, in order (positions aside)
+	if got, want := kindsOf(w.warns), strings.Join(partWarns, ","); got != want {
+		c.hit(id, cs, "concatenation-warnings-differ", fmt.Sprintf("%q: warning kinds %q, the texts alone give %q", short(string(cs.Steps[n].S)), got, want))
 	}
 }
 
